@@ -2,7 +2,7 @@
 (* Writes the (kind, value shape) pairs of MC_Codec out: the driver builds concrete values of every shape and sends them through the real   *)
 (* encoder and parser (spec -> code).                                                                                                      *)
 EXTENDS MC_Codec, Json, IOUtils, SequencesExt
-Pairs == UNION {{[kind |-> kk, shape |-> s, form |-> Enc(kk, s), kept |-> Kept(kk, s)] : s \in Shapes(kk)} : kk \in {"datetime", "time", "timedelta", "decimal", "date"}}
+Pairs == UNION {{[kind |-> kk, shape |-> s, form |-> Enc(kk, s), kept |-> Kept(kk, s)] : s \in Shapes(kk)} : kk \in {"datetime", "time", "timedelta", "decimal", "date", "enum"}}
 ASSUME ndJsonSerialize(IOEnv.OUT_CASES, SetToSeq(Pairs))
 ESpec == k = 0 /\ sh = 0 /\ [][UNCHANGED <<k, sh>>]_<<k, sh>>
 =============================================================================
